@@ -61,6 +61,75 @@ func randPMT(r *rand.Rand, ns int, big bool) absPMT {
 	return p
 }
 
+// limitPMT builds a PMT whose section_length is exactly target (<= 1021): kind 0 many streams,
+// kind 1 one stream with a very long descriptor loop, kind 2 a very long program descriptor loop.
+func limitPMT(r *rand.Rand, kind, target int) absPMT {
+	p := absPMT{Program: 1 + r.Intn(65535), Version: r.Intn(32), CNI: true, PcrPid: r.Intn(8192)}
+	body := func(n int) absDescr {
+		b := make([]byte, n)
+		r.Read(b)
+		return absDescr{Tag: []int{5, 10, 14, 82, 127, 176}[r.Intn(6)], Body: b}
+	}
+	room := func() int { return target - (len(pmtSection(p)) - 3) }
+	switch kind {
+	case 0:
+		used := map[int]bool{}
+		for room() >= 5 {
+			pid := 0x20 + r.Intn(0x1fd0)
+			if used[pid] {
+				continue
+			}
+			used[pid] = true
+			s := absStream{Type: []int{0x02, 0x0f, 0x1b, 0x81, 0x86}[r.Intn(5)], Pid: pid}
+			if n := room() - 5; n >= 2 && r.Intn(2) == 0 {
+				if n > 40 {
+					n = 2 + r.Intn(39)
+				}
+				s.Descs = append(s.Descs, body(n-2))
+			}
+			p.Streams = append(p.Streams, s)
+		}
+	case 1:
+		s := absStream{Type: 0x1b, Pid: 0x100 + r.Intn(0x1000)}
+		p.Streams = append(p.Streams, s)
+		for room() >= 2 {
+			n := room() - 2
+			if n > 255 {
+				n = 255
+			}
+			if room()-2-n == 1 { // never leave a single byte: a descriptor needs two
+				n--
+			}
+			p.Streams[0].Descs = append(p.Streams[0].Descs, body(n))
+		}
+	default:
+		p.Streams = append(p.Streams, absStream{Type: 0x0f, Pid: 0x100 + r.Intn(0x1000)})
+		for room() >= 2 {
+			n := room() - 2
+			if n > 255 {
+				n = 255
+			}
+			if room()-2-n == 1 {
+				n--
+			}
+			p.ProgDescs = append(p.ProgDescs, body(n))
+		}
+	}
+	// kind 0 can be left a few bytes short: lengthen the last descriptor / add one
+	for k := 0; room() > 0 && k < 10; k++ {
+		last := &p.Streams[len(p.Streams)-1]
+		if len(last.Descs) > 0 && len(last.Descs[len(last.Descs)-1].Body)+room() <= 255 {
+			d := &last.Descs[len(last.Descs)-1]
+			d.Body = append(d.Body, make([]byte, room())...)
+		} else if room() >= 2 {
+			last.Descs = append(last.Descs, body(room()-2))
+		} else {
+			break
+		}
+	}
+	return p
+}
+
 // packetise carries payload in packets of pid: fragment sizes frags (each 1..184, summing to
 // len(payload)); a fragment shorter than 184 is carried behind adaptation-field stuffing, except
 // that with fillLast the last one is carried payload-only and padded with 0xFF.
